@@ -26,7 +26,8 @@ EXTENDS Integers, Sequences, FiniteSets, TLC, Json
 
 CONSTANTS MinNeg, MinPos, MaxNeg, MaxPos,   \* bounds: Min = MinPos - MinNeg, Max = MaxPos - MaxNeg
           NCols, Datasets, Vias, Classes, Depth,  \* (TLC configuration files have no negative literals)
-          Sample
+          Sample,
+          Paths     \* write paths of a value import offered: subset of {"small", "large"}
 
 VARIABLES val, hist
 
@@ -140,21 +141,25 @@ V3    == {Min, Max} \cup ({0} \cap Vals)
 
 Set(c, v) == Write([op |-> "Set", c |-> c, v |-> v, ch |-> (val[c] # v)], [val EXCEPT ![c] = v])
 
-Import1(c1, v1) == Write([op |-> "Import", b |-> << <<c1, v1>> >>], Apply(val, << <<c1, v1>> >>))
-Import2(c1, v1, c2, v2) ==
-    LET b == << <<c1, v1>>, <<c2, v2>> >> IN Write([op |-> "Import", b |-> b], Apply(val, b))
-Import3(c1, v1, c2, v2, v3) ==
-    LET b == << <<c1, v1>>, <<c2, v2>>, <<c1, v3>> >> IN Write([op |-> "Import", b |-> b], Apply(val, b))
+(* path: fragment.importValue has two write paths -- "small" (positions through the op log,
+   importPositions) and "large" (values written straight to storage, caches dropped afterwards,
+   snapshot; taken when len(batch)*(bitDepth+1)+opN >= MaxOpN).  The driver forces the large
+   path by lowering MaxOpN on the open fragments for the duration of the call.              *)
+Import1(c1, v1, path) == Write([op |-> "Import", path |-> path, b |-> << <<c1, v1>> >>], Apply(val, << <<c1, v1>> >>))
+Import2(c1, v1, c2, v2, path) ==
+    LET b == << <<c1, v1>>, <<c2, v2>> >> IN Write([op |-> "Import", path |-> path, b |-> b], Apply(val, b))
+Import3(c1, v1, c2, v2, v3, path) ==
+    LET b == << <<c1, v1>>, <<c2, v2>>, <<c1, v3>> >> IN Write([op |-> "Import", path |-> path, b |-> b], Apply(val, b))
 
-ImportMap(kind, x) ==
+ImportMap(kind, x, path) ==
     LET v2 == CASE kind = "reverse" -> [c \in Cols |-> IF Has(val, c) THEN Max - (val[c] - Min) ELSE NoVal]
                 [] kind = "const"   -> [c \in Cols |-> x]
                 [] kind = "fill"    -> [c \in Cols |-> IF Has(val, c) THEN val[c] ELSE x]
-    IN Write([op |-> "ImportMap", kind |-> kind, x |-> x], v2)
+    IN Write([op |-> "ImportMap", path |-> path, kind |-> kind, x |-> x], v2)
 
-Clear(c, v) == Write([op |-> "Clear", cs |-> {c}, v |-> v], [val EXCEPT ![c] = NoVal])
-Clear2(c1, c2, v) == Write([op |-> "Clear", cs |-> {c1, c2}, v |-> v], [val EXCEPT ![c1] = NoVal, ![c2] = NoVal])
-ClearAll(v) == Write([op |-> "Clear", cs |-> Cols, v |-> v], [c \in Cols |-> NoVal])
+Clear(c, v, path) == Write([op |-> "Clear", path |-> path, cs |-> {c}, v |-> v], [val EXCEPT ![c] = NoVal])
+Clear2(c1, c2, v, path) == Write([op |-> "Clear", path |-> path, cs |-> {c1, c2}, v |-> v], [val EXCEPT ![c1] = NoVal, ![c2] = NoVal])
+ClearAll(v, path) == Write([op |-> "Clear", path |-> path, cs |-> Cols, v |-> v], [c \in Cols |-> NoVal])
 
 Range(op, p)  == Read([op |-> "Range", cmp |-> op, p |-> p, res |-> RangeSet(val, op, p)])
 Between1(a, b) == Read([op |-> "Between1", a |-> a, b |-> b, res |-> BetweenSet(val, a, b)])
@@ -174,20 +179,25 @@ Pick(S) == IF Sample THEN {RandomElement(S)} ELSE S
 (* whole-field rewrites are drawn less often in simulations (they erase the history) *)
 Rare(n) == \E k \in Pick(1..n) : k = 1
 
+(* exhaustive runs enumerate both paths for the short batches and take the large path for the
+   three-entry batches (it is the one with the separate cache handling) *)
+Paths3 == IF Sample \/ ~("large" \in Paths) THEN Paths ELSE {"large"}
+
 Writes ==
     \/ \E c \in Pick(Cols), v \in Pick(Vals) : Set(c, v)
     \/ \E c \in Pick(BCols), v \in Pick(Vals) : Set(c, v)
-    \/ \E c1 \in Pick(BCols), v1 \in Pick(Interesting) : Import1(c1, v1)
-    \/ \E c1 \in Pick(BCols), v1 \in Pick(Interesting), c2 \in Pick(BCols), v2 \in Pick(Interesting) :
-          Import2(c1, v1, c2, v2)
-    \/ \E c1 \in Pick(BCols), v1 \in Pick(Interesting), c2 \in Pick(BCols), v2 \in Pick(Interesting), v3 \in Pick(V3) :
-          Import3(c1, v1, c2, v2, v3)
-    \/ Rare(2) /\ ImportMap("reverse", 0)
-    \/ \E x \in Pick(Interesting) : Rare(4) /\ ImportMap("const", x)
-    \/ \E x \in Pick(Interesting) : Rare(2) /\ ImportMap("fill", x)
-    \/ \E c \in Pick(Cols), v \in Pick(V3) : Clear(c, v)
-    \/ \E c1 \in Pick(BCols), c2 \in Pick(BCols), v \in Pick(V3) : c1 < c2 /\ Clear2(c1, c2, v)
-    \/ \E v \in Pick(V3) : Rare(4) /\ ClearAll(v)
+    \/ \E c1 \in Pick(BCols), v1 \in Pick(Interesting), path \in Pick(Paths) : Import1(c1, v1, path)
+    \/ \E c1 \in Pick(BCols), v1 \in Pick(Interesting), c2 \in Pick(BCols), v2 \in Pick(Interesting), path \in Pick(Paths) :
+          Import2(c1, v1, c2, v2, path)
+    \/ \E c1 \in Pick(BCols), v1 \in Pick(Interesting), c2 \in Pick(BCols), v2 \in Pick(Interesting), v3 \in Pick(V3), path \in Pick(Paths3) :
+          Import3(c1, v1, c2, v2, v3, path)
+    \/ \E path \in Pick(Paths) : Rare(2) /\ ImportMap("reverse", 0, path)
+    \/ \E x \in Pick(Interesting), path \in Pick(Paths) : Rare(4) /\ ImportMap("const", x, path)
+    \/ \E x \in Pick(Interesting), path \in Pick(Paths) : Rare(2) /\ ImportMap("fill", x, path)
+    \/ \E c \in Pick(Cols), v \in Pick(V3), path \in Pick(Paths) : Clear(c, v, path)
+    \/ \E c1 \in Pick(BCols), c2 \in Pick(BCols), v \in Pick(V3), path \in Pick(Paths3) : c1 < c2 /\ Clear2(c1, c2, v, path)
+    \/ \E v \in Pick(V3), path \in Pick(Paths) : Rare(4) /\ ClearAll(v, path)
+    \/ \E c1 \in Pick(BCols), v1 \in Pick(Vals), path \in Pick({"large"} \cap Paths) : Sample /\ Import1(c1, v1, path)
 
 Queries ==
     \/ \E op \in Pick(Ops), p \in Pick(Preds) : Range(op, p)
